@@ -4,7 +4,7 @@ import vlib, gen, impl, findings
 from props.c01 import VERSIONS, excluded
 
 MODULES = ['Hl7.Props.C02'] + ['Hl7.Gen.ObV' + v.replace('.', '_') for v in VERSIONS] + ['Hl7.Gen.ObInstV' + v.replace('.', '_') for v in VERSIONS]
-THEOREMS = ['Hl7.C02.C02_slot_position', 'Hl7.C02.C02_slot_only_there', 'Hl7.C02.C02_open_ended'] + \
+THEOREMS = ['Hl7.C02.C02_cascade_enc', 'Hl7.C02.C02_cascade_parse', 'Hl7.C02.C02_slot_position', 'Hl7.C02.C02_slot_only_there', 'Hl7.C02.C02_open_ended'] + \
            ['Hl7.Gen.ObV%s.segWF' % v.replace('.', '_') for v in VERSIONS] + \
            ['Hl7.Gen.ObInstV%s.segInstantiable' % v.replace('.', '_') for v in VERSIONS]
 SAFE = {'DT': '2020', 'TM': '12', 'DTM': '2020', 'NM': '10', 'SI': '1', 'TN': '5551234'}
